@@ -557,7 +557,7 @@ def run(ctx):
         if s["errors"]:
             oracle_failures.append({"signature": "internal-error:explicit-schedule", "errors": s["errors"][:2]})
     descs = []
-    for fn, count in ((h1_case, ctx.scale(400, 6000, 2000)), (h2_case, ctx.scale(400, 6000, 2000)), (h2_late_upload_case, ctx.scale(24, 300, 100)),
+    for fn, count in ((h1_case, ctx.scale(600, 6000, 2000)), (h2_case, ctx.scale(900, 6000, 2000)), (h2_late_upload_case, ctx.scale(40, 300, 100)),
                       (ws_case, ctx.scale(100, 1500, 500))):
         for i in range(count):
             d, f = fn(ctx.seed * 15485863 + i)
